@@ -26,6 +26,21 @@ Print Assumptions C12_other_loader.
 Theorem C12_other_thread : forall stack f src, compile_of stack f src false = Stock.
 Proof. exact compile_other_thread. Qed.
 Print Assumptions C12_other_thread.
+(* a loader handed out under one stack and loading under another (lazy loading, a spec kept for later): rewritten for exactly the
+   accepting tracers of the first that are still on the second; after the context - nothing on the stack - it is a plain loader
+   ("nothing is instrumented after the context": before e42320a it went on rewriting for the tracers it held) *)
+Theorem C12_later_iff : forall found load f,
+  compile_later found load f true true =
+    match filter (fun t => existsb (N.eqb (t_id t)) (map t_id load)) (filter (fun t => t_accepts t f) found) with
+    | [] => Stock | ts => Rewritten (map t_id ts) end.
+Proof. exact compile_later_exact. Qed.
+Print Assumptions C12_later_iff.
+Theorem C12_after_context : forall found f src same, compile_later found [] f src same = Stock.
+Proof. exact compile_later_after. Qed.
+Print Assumptions C12_after_context.
+Theorem C12_later_now : forall stack f src same, compile_later stack stack f src same = compile_of stack f src same.
+Proof. exact compile_later_now. Qed.
+Print Assumptions C12_later_now.
 (* while a module body runs, no tracer that accepts the module is switched off *)
 Theorem C12_accepting_stay_enabled : forall stack f t, In t stack -> t_accepts t f = true ->
   (forall t', In t' stack -> t_id t' = t_id t -> t' = t) -> ~ In (t_id t) (disabled_during_exec stack f).
